@@ -221,4 +221,51 @@ MUTANTS = [
     Mutant("no-truncation", PW, "    trace_list = trace_list[:max_number]\n", "", "R4.max-number-truncated"),
     Mutant("budget-unguarded", TT, "                if curr_trace_count[0] < max_trace_count:\n                    curr_trace_count[0] += 1\n                    new_i, new_j = next_indices[k]\n                    new_state = next_states[k]",
            "                if True:\n                    curr_trace_count[0] += 1\n                    new_i, new_j = next_indices[k]\n                    new_state = next_states[k]", "R2.branch-budget"),
+    # ---- one seeded fault per rule that had none --------------------------------------
+    # R1.comparison-only: C08 additionally puts a floor on the number of enumerated orderings, so the
+    # recorded finding is pre-empted by the floor's AnalysisError (the same edits are caught as findings in C09)
+    Mutant("linear-score-arithmetic", TT, "            trace = TraceDirectionLinear.MATCH\n            max_score[0] = match_score\n",
+           "            trace = TraceDirectionLinear.MATCH\n            max_score[0] = match_score + 1\n", "R1.comparison-only"),
+    Mutant("affine-difference-test", TT, "    if match_to_gap_left_score > gap_left_to_gap_left_score:\n",
+           "    if match_to_gap_left_score - gap_left_to_gap_left_score > 0:\n", "R1.comparison-only"),
+    Mutant("linear-branch-shares-trace", TT, "                        np.copy(trace), trace_list, 0,\n", "                        trace, trace_list, 0,\n", "R2.branch-copies-trace"),
+    Mutant("affine-branch-shares-trace", TT, "                        np.copy(trace), trace_list, new_state,\n", "                        trace, trace_list, new_state,\n",
+           "R2.branch-copies-trace"),
+    Mutant("linear-flag-not-a-bit", tracetab.PXD, "    GAP_TOP  = 4    # bit 3", "    GAP_TOP  = 3    # bit 3", "R2.flag-values"),
+    Mutant("affine-flag-duplicate", tracetab.PXD, "    MATCH_TO_GAP_TOP     = 32   # bit 6", "    MATCH_TO_GAP_TOP     = 16   # bit 6", "R2.flag-values"),
+    Mutant("affine-flag-beyond-uint8", tracetab.PXD, "    GAP_TOP_TO_GAP_TOP   = 64   # bit 7", "    GAP_TOP_TO_GAP_TOP   = 256  # bit 7", "R2.flag-values"),
+    Mutant("loop-mask-drops-flag", TT, "                state == TraceState.GAP_LEFT_STATE and trace_table[i,j] & (\n                    TraceDirectionAffine.MATCH_TO_GAP_LEFT |\n                    TraceDirectionAffine.GAP_LEFT_TO_GAP_LEFT\n                ) != 0",
+           "                state == TraceState.GAP_LEFT_STATE and trace_table[i,j] & (\n                    TraceDirectionAffine.MATCH_TO_GAP_LEFT\n                ) != 0", "R2.state-mask"),
+    Mutant("value-mask-wrong-flag", TT, "                trace_value = trace_table[i,j] & (\n                    TraceDirectionAffine.MATCH_TO_GAP_TOP |\n                    TraceDirectionAffine.GAP_TOP_TO_GAP_TOP\n                )",
+           "                trace_value = trace_table[i,j] & (\n                    TraceDirectionAffine.MATCH_TO_GAP_TOP |\n                    TraceDirectionAffine.GAP_TOP_TO_MATCH\n                )", "R2.state-mask"),
+    Mutant("boundary-linear-swapped", PW, "            trace_table[1:,0] = TraceDirectionLinear.GAP_TOP\n            trace_table[0,1:] = TraceDirectionLinear.GAP_LEFT\n",
+           "            trace_table[1:,0] = TraceDirectionLinear.GAP_LEFT\n            trace_table[0,1:] = TraceDirectionLinear.GAP_TOP\n", "R3.boundary-flags"),
+    Mutant("boundary-affine-first-step", PW, "            trace_table[0,  1] = TraceDirectionAffine.MATCH_TO_GAP_LEFT\n",
+           "            trace_table[0,  1] = TraceDirectionAffine.GAP_LEFT_TO_GAP_LEFT\n", "R3.boundary-flags"),
+    Mutant("fill-linear-wrong-axis", PW, "        for j in range(1, score_table.shape[1]):\n", "        for j in range(1, score_table.shape[0]):\n", "R3.fill-range",
+           qualname="_fill_align_table"),
+    Mutant("fill-affine-from-zero", PW, "    for i in range(1, trace_table.shape[0]):\n", "    for i in range(trace_table.shape[0]):\n", "R3.fill-range",
+           qualname="_fill_align_table_affine"),
+    Mutant("local-floor-strict", PW, "            if local == True and score <= 0:\n                continue\n", "            if local == True and score < 0:\n                continue\n",
+           "R3.local-floor-linear"),
+    Mutant("local-floor-always", PW, "            if local == True and score <= 0:\n                continue\n", "            if score <= 0:\n                continue\n",
+           "R3.local-floor-linear"),
+    Mutant("affine-score-ignores-g2", PW, "            max_score = max(m_table[i_start,j_start],\n                            g1_table[i_start,j_start],\n                            g2_table[i_start,j_start])",
+           "            max_score = max(m_table[i_start,j_start],\n                            g1_table[i_start,j_start])", "R3.reported-score"),
+    Mutant("linear-score-wrong-cell", PW, "            max_score = score_table[i_start,j_start]\n", "            max_score = score_table[i_start-1,j_start-1]\n", "R3.reported-score"),
+    Mutant("start-state-g1-as-g2", PW, "            if g1_table[i_start,j_start] == max_score:\n                i_list = np.append(i_list, i_start)\n                j_list = np.append(j_list, j_start)\n                state_list = np.append(state_list, 2)",
+           "            if g1_table[i_start,j_start] == max_score:\n                i_list = np.append(i_list, i_start)\n                j_list = np.append(j_list, j_start)\n                state_list = np.append(state_list, 3)", "R3.start-states"),
+    Mutant("local-start-no-state", PW, "            state_list = np.append(state_list, np.full(len(i_list), 1))", "            state_list = np.append(state_list, np.full(len(i_list), 0))",
+           "R3.start-states"),
+    # both stores of the gap_top maximum go to the gap_left table (one store alone leaves the state's table ambiguous = anchor loss)
+    Mutant("g2-maximum-into-g1-table", PW, "g2_table[i,j] = g2_score\n", "g1_table[i,j] = g2_score\n", "R3.state-tables", count=2),
+    # the linear and the affine part of follow_trace must agree, hence both sites
+    Mutant("stencil-match-same-column", TT, "                j_match, j_gap_left, j_gap_top = j-1, j-1, j\n", "                j_match, j_gap_left, j_gap_top = j, j-1, j\n", "R3.stencil-values",
+           count=2),
+    Mutant("lookup-linear-unshifted", PW, "            from_diag = score_table[i-1, j-1] + matrix[code1[i-1], code2[j-1]]\n",
+           "            from_diag = score_table[i-1, j-1] + matrix[code1[i-1], code2[j]]\n", "R3.substitution-lookup", qualname="_fill_align_table"),
+    Mutant("lookup-affine-transposed", PW, "            similarity_score = matrix[code1[i-1], code2[j-1]]\n", "            similarity_score = matrix[code2[j-1], code1[i-1]]\n",
+           "R3.substitution-lookup", qualname="_fill_align_table_affine"),
+    Mutant("budget-off-by-one", PW, "            max_trace_count=max_number,\n", "            max_trace_count=max_number+1,\n", "R4.max-number-budget"),
+    Mutant("max-number-zero-accepted", PW, "    if max_number < 1:\n", "    if max_number < 0:\n", "R4.max-number-validated"),
 ]
